@@ -29,7 +29,8 @@ COMPONENTS = {"real": ["sievelib.parser.Parser", "sievelib.commands (incl. proce
                        "sievelib.factory.FiltersSet"],
               "stub": ["scheduler of whole public calls (simkit chooser, family 'sched')", "pristine interpreter = os.fork() of a process that never parsed"]}
 ASSUMPTIONS = ["granularity is whole public calls (the property speaks of what other objects *have done*)",
-               "add_commands is not part of the workload (registering a command is supposed to change later behaviour)"]
+               "add_commands is not part of the workload (registering a command is supposed to change later behaviour)",
+               "calls do not overlap: no parse is started while another one is running (no nested parse from a command's completion hook, no second thread)"]
 
 VALID = [
     'keep;\n',
